@@ -18,6 +18,7 @@ META = {
 
 # --- additions to the level description (rules added after the first version)
 META['level_text'] += ' R5: release_all itself runs its loop over a snapshot of all held input keys to exhaustion on every return path (shared with C06-R1).'
+META['level_text'] += ' R6: the tablet-switch reader answers On/Off exactly for the records (EV_SW, SW_TABLET_MODE, 1/0) and reads on after every other record.'
 # --- end additions
 
 
@@ -137,3 +138,57 @@ def run(ctx):
         ck.ob("C12-R2", fn, "%s:before-next-read" % arm, ok_dst, detail=None if ok_dst else "arm leads to %s" % s.dst)
         ck.ob("C12-R2", fn, "%s:no-step" % arm, not tr.of("STEP"))
     ck.ob("C12-R2", fn, "both-arms-present", arms_seen == {"On", "Off"}, detail=str(sorted(arms_seen)))
+    tablet_reader_table(ctx, ck)
+
+
+def tablet_reader_table(ctx, ck):
+    """what the loop is told about the switch is what the kernel reported: the reader answers On exactly for the record
+    (EV_SW=5, SW_TABLET_MODE=1, value 1), Off exactly for (5, 1, 0), and reads on after every other record"""
+    from ..mir import Walker
+    fn = "tablet_mode_switch_reader::TabletModeSwitchReader::next"
+    if not ctx.has_body(fn):
+        ck.unrecognised("C12-R6", fn, "missing")
+        return
+    b = ctx.body(fn)
+
+    def field_of(t):
+        offs = sorted({mir.const_int(x[2]) for x in mir.subterms(t) if isinstance(x, tuple) and x and x[0] == "index" and mir.const_int(x[2]) is not None})
+        return {(16, 17): "type", (18, 19): "code", (20, 21, 22, 23): "value"}.get(tuple(offs))
+
+    def facts_of(p):
+        out = {}
+        for e in p.events:
+            if e.kind != "guard":
+                continue
+            ec = Walker._eq_const(e.a)
+            if ec is not None and isinstance(e.b, bool):
+                f = field_of(ec[0])
+                if f:
+                    out[(f, ec[1])] = e.b
+            elif isinstance(e.a, tuple) and isinstance(e.b, int) and not isinstance(e.b, bool) and field_of(e.a):
+                out[(field_of(e.a), e.b)] = True          # a match arm on the field's value
+            elif isinstance(e.a, tuple) and isinstance(e.b, tuple) and e.b and e.b[0] == "other" and field_of(e.a):
+                for v_ in e.b[1]:
+                    out[(field_of(e.a), v_)] = False      # the wildcard arm: none of the listed values
+        return out
+    levels = [mir.walk_function(b)] + [mir.walk_loop_body(b, h) for h in sorted(b.loops())]
+    seen = set()
+    for paths in levels:
+        for p in paths:
+            if p.outcome[0] == "return" and isinstance(p.outcome[1], tuple) and p.outcome[1][0] == "agg" and p.outcome[1][2] == "Ok":
+                pay = p.outcome[1][3][0]
+                v = pay[2] if isinstance(pay, tuple) and pay[0] == "agg" else None
+                f = facts_of(p)
+                if any(e.kind == "loop" for e in p.events):
+                    continue
+                want = {"On": 1, "Off": 0}.get(v)
+                ok = want is not None and f.get(("type", 5)) is True and f.get(("code", 1)) is True and f.get(("value", want)) is True
+                seen.add(v)
+                ck.ob("C12-R6", fn, "%s-only-for-the-record(EV_SW,SW_TABLET_MODE,%s)" % (v, want), ok, detail=None if ok else str(sorted(f.items())))
+            elif p.outcome[0] == "backedge":
+                f = facts_of(p)
+                reason = f.get(("type", 5)) is False or f.get(("code", 1)) is False or (f.get(("value", 1)) is False and f.get(("value", 0)) is False)
+                seen.add("other")
+                ck.ob("C12-R6", fn, "reads-on-only-after-a-record-that-is-not-a-tablet-switch-report", reason, detail=None if reason else str(sorted(f.items())))
+    ck.ob("C12-R6", fn, "On,Off-and-skip-classes-present", seen >= {"On", "Off", "other"}, detail=str(sorted(map(str, seen))))
+
